@@ -20,7 +20,8 @@
 /* White-box: reach packedopts / opt_found / opts. */
 #include "getopt.c"
 
-#define MAXREP 4096
+/* More reports than any input here can produce: a parser which does not advance. */
+#define MAXREP 512
 static char l2buf[1 << 16];
 static size_t l2len;
 static int nrep;
@@ -126,6 +127,8 @@ parse_t0(int argc, char * argv[], int k)
 		}
 		if ((k > 0) && (nrep == k))
 			return (1);
+		if (nrep >= MAXREP)
+			return (2);
 	}
 	return (0);
 }
@@ -152,6 +155,8 @@ parse_t1(int argc, char * argv[], int k)
 		}
 		if ((k > 0) && (nrep == k))
 			return (1);
+		if (nrep >= MAXREP)
+			return (2);
 	}
 	return (0);
 }
@@ -189,6 +194,8 @@ parse_t2(int argc, char * argv[], int k)
 		}
 		if ((k > 0) && (nrep == k))
 			return (1);
+		if (nrep >= MAXREP)
+			return (2);
 	}
 	return (0);
 }
@@ -217,8 +224,32 @@ parse_t3(int argc, char * argv[], int k)
 		}
 		if ((k > 0) && (nrep == k))
 			return (1);
+		if (nrep >= MAXREP)
+			return (2);
 	}
 	return (0);
+}
+
+/*
+ * `case`: put every variable of getopt.c back to its load-time value, so that each case starts
+ * like a fresh process (the first parse of a case is a fresh parse, the following ones are
+ * parses after optreset = 1) and a replay of one case does not depend on earlier cases.
+ */
+static void
+fresh_process(void)
+{
+
+	free(opts);
+	opts = NULL;
+	nopts = 0;
+	opt_missing = opt_default = opt_found = 0;
+	packedopts = NULL;
+	cmdname = NULL;
+	optarg = NULL;
+	optind = 1;
+	opterr = 1;
+	optreset = 1;
+	getopt_initialized = 0;
 }
 
 int
@@ -233,6 +264,8 @@ main(void)
 	while (hc_next()) {
 		if (strcmp(hc_tok[0], "case") == 0) {
 			printf("case %s\n", hc_ntok > 1 ? hc_tok[1] : "");
+			fflush(stdout);		/* a crash must be attributed to this case */
+			fresh_process();
 			continue;
 		}
 		if ((strcmp(hc_tok[0], "parse") != 0) || (hc_ntok < 3)) {
@@ -258,7 +291,10 @@ main(void)
 		l2buf[0] = '\0';
 		nrep = 0;
 
-		/* As documented: a new argument vector is parsed after setting optreset. */
+		/*
+		 * As documented: a new argument vector is parsed after setting optreset
+		 * (a no-op for the first parse of a case: optreset starts as 1).
+		 */
 		optreset = 1;
 		switch (t) {
 		case 0: stopped = parse_t0(ac, av, k); break;
@@ -269,6 +305,8 @@ main(void)
 		}
 		if (stopped < 0) {
 			printf("bad-table\n");
+		} else if (stopped == 2) {
+			printf("runaway\n");
 		} else if (stopped) {
 			printf("stop | %s\n", l2buf);
 		} else {
